@@ -36,7 +36,7 @@ ASSUMPTIONS = [
     "operations that raise on a state reached by other operations are counted, not reported (they may legitimately be rejected); operations in MUST_SUCCEED raising on an initial state are reported",
 ]
 REQUIRED_CATEGORIES = ["op_returned", "op_rejected", "deepcopy_checked", "concat_roundtrip_members", "flatten_roundtrip_members",
-                       "netcdf_roundtrip", "binary_op", "nan_state", "inf_depth_state"]
+                       "netcdf_roundtrip", "binary_op", "nan_state", "inf_depth_state", "ancestor_probe"]
 
 F1 = np.array([0.05, 0.1, 0.2, 0.3, 0.5])
 D1 = np.array([0.0, 45.0, 90.0, 135.0, 180.0, 225.0, 270.0, 315.0])
@@ -165,6 +165,7 @@ def op_list(tier):
     op("multiply_freq", lambda s: s.multiply(np.arange(len(s.frequency), dtype=float) + 1.0, ["frequency"]), must="all")
     op("multiply_inplace", lambda s: s.multiply(np.full(s.shape(), 3.0), inplace=True), "mutating")
     op("fillna", lambda s: (s.fillna(0.25), s)[1], "mutating")
+    op("multiply_freq_inplace", lambda s: s.multiply(np.arange(len(s.frequency), dtype=float) + 2.0, ["frequency"], inplace=True), "mutating")
     op("bandpass_inner", lambda s: s.bandpass(float(s.frequency[1]), float(s.frequency[-1])), must="all")
     op("bandpass_all", lambda s: s.bandpass(), must="all")
     op("sel_time", lambda s: s.sel({"time": s.time.values[-1]}))
@@ -441,13 +442,43 @@ def do_netcdf(c, s, viol):
 # --------------------------------------------------------------------------------------------
 # BFS
 # --------------------------------------------------------------------------------------------
-def build(info, hist, ops_by_name, c):
+def build_chain(info, hist, ops_by_name):
+    """all objects of a history, oldest first: [initial, after op 1, ..., current]"""
     s = initial(info["kind"], info["layout"])
+    chain = [s]
     for name in hist:
-        s = apply(c if False else _NULL, s, ops_by_name[name], info, lambda *a: None, 99)
+        s = apply(_NULL, s, ops_by_name[name], info, lambda *a: None, 99)
         if s is None:
             raise RuntimeError("replay of a recorded history failed: " + repr(hist))
-    return s
+        chain.append(s)
+    return chain
+
+
+def build(info, hist, ops_by_name, c):
+    return build_chain(info, hist, ops_by_name)[-1]
+
+
+def ancestor_probe(c, info, hist, opd, ops_by_name, viol):
+    """The library's in-place mutators applied to a *derived* object must not reach the objects it was derived
+    from (results of flatten / slicing / interpolation may be views of their operand): rebuild the whole chain,
+    mutate its tip in place through the library, compare every ancestor before/after."""
+    if not hist:
+        return
+    chain = build_chain(info, hist, ops_by_name)
+    anc, tip = chain[:-1], chain[-1]
+    before = [canon(a) for a in anc]
+    try:
+        opd["fn"](tip)
+    except Exception:
+        c.cat("ancestor_probe_rejected")
+        return
+    c.cat("ancestor_probe")
+    for i, a in enumerate(anc):
+        if canon(a) != before[i]:
+            viol("in-place operation on a derived object changed an ancestor",
+                 f"{opd['name']} applied to the result of {hist} changed the object it was derived from "
+                 f"(ancestor #{i}: {'initial spectrum' if i == 0 else 'result of ' + repr(hist[:i])})")
+            break
 
 
 class _Null(Collector):
@@ -487,6 +518,8 @@ def run_unit(unit):
                     s_canon = canon(s)
                 vl = []
                 res = apply(c, s, opd, info, lambda check, what: vl.append((check, what)), level)
+                if opd["kind"] == "mutating":
+                    ancestor_probe(c, info, hist, opd, ops_by_name, lambda check, what: vl.append((check, what)))
                 transitions += 1
                 c.evaluations += 1
                 if np.isnan(s.variance_density.values).any():
